@@ -521,6 +521,7 @@ pub fn execute(case: &RegCase) -> (RunResult, CaseReport) {
         abort_unwind: false,
         script: case.script.clone(),
         abort_on_cell_race: true,
+        stretch: 1,
     };
     let exec = Exec::new(cfg, n);
     {
